@@ -385,16 +385,18 @@ def dir_tree(n, seed):
 def c16_scens(ctx):
     scens = []
     sizes = [0, 1, 2, 17, 300] if ctx.quick else [0, 1, 2, 17, 300, 3000]
-    steps = 120 if ctx.quick else 1200
+    steps = 120 if ctx.quick else 900
     k = 0
     for n in sizes:
         for via in ("pt", "vfs", "server"):
             for nod in (False, True):
-                if ctx.quick and n == 300 and (via, nod) not in (("pt", False), ("server", True)):
+                # the biggest directory of a tier is listed on two routes only (TLC time is linear in events x directory size)
+                if n == sizes[-1] and (via, nod) not in (("pt", False), ("server", True)):
                     continue
                 k += 1
+                st = 12 if n == 0 else steps // 3 if n >= 3000 else steps
                 scens.append({"cfg": cfg(no_opendir=nod, via=via, fh=(k % 5 == 0)), "tree": dir_tree(n, ctx.seed + k), "dir": "dd",
-                              "random": {"kind": "dir", "seed": ctx.seed * 100 + k, "steps": steps if n else 12}})
+                              "random": {"kind": "dir", "seed": ctx.seed * 100 + k, "steps": st}})
     for m in ([0, 1, 3, 40] if ctx.quick else [0, 1, 2, 3, 17, 120]):
         names = [x[0][3:] for x in dir_tree(m, ctx.seed)[1:] if x[0][3:] not in (".", "..")]
         for nod in (False, True):
